@@ -56,3 +56,53 @@ def check_c18(tier="quick", seed=0):
 def check_frames(prop="C04", roots=(), tier="quick", seed=0):
     """the same frame condition for the entry points of another property (its functions keep no state between calls)"""
     return _run(prop, list(roots), {"global-write"}, "writes process-wide state (module-level or class-level table, mutable default, memo)", allow=(_remap_exception,), tier=tier)
+
+
+# ---------------------------------------------------------------------------------------------- C07: host switches
+C07_ROOTS = ["xdis.load:load_module", "xdis.load:load_module_from_file_object", "xdis.disasm:disassemble_file", "xdis.unmarshal:load_code", "xdis.bytecode:Bytecode.__init__",
+             "xdis.bytecode:Bytecode.dis", "xdis.bytecode:get_instructions_bytes", "xdis.cross_dis:findlabels", "xdis.cross_dis:findlinestarts", "xdis.codetype:codeType2Portable"]
+
+# expressions whose value legitimately differs between hosts, with the contract that shows both sides agree
+C07_ALLOWED = [
+    ("xdis.load:load_module_from_file_object", "PYTHON_MAGIC_INT", "the fast-path switch (file version == host version): both loader paths give the same fields by C01/C10 (portable reader = format) + C16 (native -> portable is field-exact per host); compared on real files by the bounded host differential"),
+    ("xdis.codetype:codeType2Portable", "PYTHON_VERSION_TRIPLE", "default argument: picks the portable class of the host's own code type; C16 proves the conversion per host 3.8-3.13"),
+    ("xdis.codetype:portableCodeType", "PYTHON_VERSION_TRIPLE", "default argument, same as codeType2Portable"),
+    ("xdis.codetype:to_portable", "PYTHON_VERSION_TRIPLE", "default argument version_triple: callers in the decode paths pass the file's version"),
+    ("xdis.disasm:disco", "PYTHON_VERSION_TRIPLE", "asm_format == 'dis' only: delegates to the host's dis and asserts the versions agree (not one of the six formats of C12)"),
+    ("xdis.disasm:disco_loop", "PYTHON_VERSION_TRIPLE", "asm_format == 'dis' only (see disco)"),
+    ("xdis.disasm:disassemble_file", "PYTHON_VERSION_TRIPLE", "source-file fallback: a .py argument is compiled by the host, so its bytecode is the host's by definition"),
+    ("xdis.disasm:disassemble_file", "PYTHON_MAGIC_INT", "source-file fallback (see above)"),
+    ("xdis.disasm:disassemble_file", "IS_PYPY", "source-file fallback (see above)"),
+    ("xdis.disasm:show_module_header", "HOST", "the banner line that names the host (excluded by the property)"),
+    ("xdis.marsh:_Marshaller.dump", "PYTHON_VERSION_TRIPLE", "writer side (reached only through the name-based call graph): refuses a native code object of another version than the host's; not on a decode path"),
+    ("xdis.version_info:version_tuple_to_str", "PYTHON_VERSION_TRIPLE", "default argument used for the banner and for error messages that name the host"),
+]
+
+
+def check_c07(tier="quick", seed=0):
+    """one obligation per expression that reads a host constant inside a function reachable from the decoding entry points:
+    after substituting the constants of each installed host 3.8-3.13 the residual expression is the same (the code cannot
+    behave differently on another host), or the expression is a listed switch whose two sides are proved equal elsewhere"""
+    repo = os.environ.get("XDIS_REPO", "/repo")
+    pkg = frames.Package(repo)
+    try:
+        order, via = pkg.reachable(C07_ROOTS)
+    except KeyError as e:
+        return {"name": "ground.effects.C07", "error": "entry point missing: %s" % e, "obligations": [], "violations": []}
+    obs, vio = [], []
+    for f in order:
+        for ln, text, res in frames.host_reads(pkg, f):
+            name = "C07/host-switch/%s@L%d" % (f.key, ln)
+            vals = set(res.values())
+            if len(vals) == 1:
+                obs.append({"name": name, "status": "discharged", "backend": "partial evaluation over hosts 3.8-3.13", "time_s": 0.0, "detail": "%s  =>  %s" % (text, list(vals)[0][1])})
+                continue
+            allowed = next((a for a in C07_ALLOWED if a[0] == f.key and (a[1] in text or a[1] == "HOST")), None)
+            if allowed is not None:
+                obs.append({"name": name, "status": "discharged", "backend": "listed host switch (assumed: %s)" % allowed[2][:80], "time_s": 0.0, "detail": text})
+                continue
+            obs.append({"name": name, "status": "refuted", "backend": "partial evaluation over hosts 3.8-3.13", "time_s": 0.0, "detail": text})
+            vio.append({"name": name, "key": "host-switch:%s:%s" % (f.key, text[:60]), "confirmed": False,
+                        "detail": "%s (%s line %d) evaluates differently on different hosts: %s; reached via %s" % (text, f.key, ln, dict((h, r[1]) for h, r in sorted(res.items())), " -> ".join([k for k in [via.get(f.key)] if k]))})
+    return {"name": "ground.effects.C07", "obligations": obs, "violations": vio, "evaluations": len(obs),
+            "assumptions": list(frames.ASSUMPTIONS) + ["host switches listed in ground/effects.py C07_ALLOWED are assumed equal on both sides by the contracts named there (C01/C10/C16) and checked on real files by the bounded differential"]}
